@@ -263,7 +263,7 @@ def verdict(desc):
                 if isinstance(e, ValueError) and "infs or NaNs" not in str(e):
                     raise
                 out.note_inconclusive("%s/%s did not converge: %s" % (lin, amode, str(e)[:160]))
-                out.label("solver-inconclusive:" + lin)
+                out.label("solver-inconclusive:%s/%s" % (lin, amode))
                 pa.cleanup()
                 continue
             ref = Jf if amode == "fwd" else Jr
@@ -271,7 +271,7 @@ def verdict(desc):
                 sc = max(float(np.max(np.abs(ref[k]))), 1e-300)
                 out.close("solver_%s/d_%s" % (lin, k[0].split(".")[-1]), Ja[k], ref[k], rtol=1e-5,
                           atol=1e-7 * max(fm[k[0]], 1e-9) / xm[k[1]], scale=sc, msg="wrt %s (%s)" % (k[1], amode))
-            out.label("solver-conclusive:" + lin)
+            out.label("solver-conclusive:%s/%s" % (lin, amode))
             pa.cleanup()
     out.label("topo=" + topo)
     for w in wrt:
